@@ -3,7 +3,7 @@
 # neutral/a_<name>.patch and remove the scratch worktree.
 n="$1"; wt=/tmp/seeds/$n; out=/tmp/seeds/$n.out
 cd "$wt" || exit 9
-git checkout -q -- . ; git apply "$out/patch.diff" || { echo "PATCH DOES NOT APPLY"; exit 9; }
+git reset -q; git checkout -q -- . ; git clean -fdq s3transfer; git apply "$out/patch.diff" || { echo "PATCH DOES NOT APPLY"; exit 9; }
 res=$(PYTHONPATH=$wt timeout 900 /venv/bin/python -m pytest -q -p no:cacheprovider tests/unit tests/functional 2>&1 | grep -E "passed|failed|error" | tail -1)
 echo "$n: $res; $(git diff --stat | tail -1)"
 case "$res" in *failed*|*error*) echo "NOT TAKEN"; exit 1;; esac
